@@ -693,7 +693,7 @@ func (b *Buffer) write(call goja.FunctionCall) goja.Value {
 	}
 	codec := b.getStringCodec(call.Argument(3))
 
-	raw := codec.Decode(str)
+	raw := codec.DecodeAppend(str, nil)
 	if int64(len(raw)) < length {
 		// make sure we only write up to raw bytes
 		length = int64(len(raw))
